@@ -16,6 +16,12 @@ generated definition equal to the hand-written model.
                                       the permitted models); translated: the band-cover condition of the candidates
   set_one_amplifier                   only its 2nd statement (raman_allowed), template RAMAN; translated: the elementwise
                                       comparison under .all()
+  edfa_nf                             template NF, whole (no hole): builds a fresh Edfa from the entry and the required gain
+                                      and returns its _calc_nf - the ranking key depends on the library entry at hand only
+  the module                          check_stateless: network.py keeps no state between calls - its top-level statements are
+                                      the docstring, imports, undecorated functions and the four assignments of MODULE_ASSIGNS;
+                                      no global / nonlocal, no mutable or computed default argument, no attribute stored on a
+                                      module-level function
 Anything outside the subset raises Unsupported (fail closed).  Float constants are read as the decimal they are written as.
 """
 import ast
@@ -230,11 +236,76 @@ Fixpoint first_min_row (nf : amp -> Q) (best : row) (l : list row) : row :=
 """
 
 
+NF = """
+amp = elements.Edfa(uid='calc_NF', params=amp_params.__dict__,
+                    operational={'gain_target': gain_target, 'tilt_target': 0})
+amp.pin_db = 0
+amp.nch = 88
+amp.slot_width = 50e9
+return amp._calc_nf(True)
+"""
+
+# the only assignments at the top level of network.py: a logger, two typing aliases, a tuple of classes
+MODULE_ASSIGNS = [
+    'logger = getLogger(__name__)',
+    'ELEMENT_TYPES = Union[elements.Fiber, elements.Roadm, elements.Fused, elements.Edfa, elements.Transceiver, '
+    'elements.Transceiver]',
+    'PASSIVE_ELEMENT_TYPES = Union[elements.Fiber, elements.Roadm, elements.Fused]',
+    '_fiber_fused_types = (elements.Fused, elements.Fiber)',
+]
+
+
+def check_stateless(tree):
+    """network.py keeps nothing between two calls of its functions (what one design computed cannot reach the next one,
+    e.g. through a memo keyed by model names): fail closed on anything that could hold such state"""
+    allowed = {ast.dump(ast.parse(x).body[0]) for x in MODULE_ASSIGNS}
+    top_funcs = set()
+    for i, n in enumerate(tree.body):
+        if i == 0 and isinstance(n, ast.Expr) and isinstance(n.value, ast.Constant) and isinstance(n.value.value, str):
+            continue
+        if isinstance(n, (ast.Import, ast.ImportFrom)):
+            continue
+        if isinstance(n, ast.FunctionDef):
+            top_funcs.add(n.name)
+            continue
+        if isinstance(n, ast.Assign) and ast.dump(n) in allowed:
+            continue
+        raise Unsupported(f'module-level statement of network.py (line {n.lineno}): {ast.unparse(n)[:120]}')
+    for n in ast.walk(tree):
+        if isinstance(n, (ast.Global, ast.Nonlocal)):
+            raise Unsupported(f'global / nonlocal {n.names} (line {n.lineno})')
+        if isinstance(n, ast.ClassDef):
+            raise Unsupported(f'class {n.name} (line {n.lineno})')
+        if isinstance(n, (ast.FunctionDef, ast.AsyncFunctionDef)):
+            if n.decorator_list:
+                raise Unsupported(f'decorated function {n.name} (line {n.lineno})')
+            for d in n.args.defaults + [x for x in n.args.kw_defaults if x is not None]:
+                if not (isinstance(d, ast.Constant) or (isinstance(d, ast.UnaryOp) and isinstance(d.operand, ast.Constant))):
+                    raise Unsupported(f'default argument of {n.name} (line {n.lineno}): {ast.unparse(d)}')
+        targets = n.targets if isinstance(n, ast.Assign) else [n.target] if isinstance(n, (ast.AugAssign, ast.AnnAssign)) else []
+        for tg in targets:
+            base = tg
+            while isinstance(base, (ast.Attribute, ast.Subscript)):
+                base = base.value
+            if base is not tg and isinstance(base, ast.Name) and (base.id in top_funcs or base.id in ('logger', 'elements')
+                                                                   or base.id.isupper() or base.id == '_fiber_fused_types'):
+                raise Unsupported(f'store into module-level object {base.id} (line {n.lineno})')
+
+
 def generate(repo=None):
     repo = repo or common.REPO
     tree = ast.parse(open(os.path.join(repo, SRC)).read())
     out = [HEADER]
     t = TrQ()
+    # ---- no state between calls; the ranking key
+    check_stateless(tree)
+    fn = find(tree, 'edfa_nf')
+    if [a.arg for a in fn.args.args] != ['gain_target', 'amp_params'] or fn.args.defaults:
+        raise Unsupported('signature of edfa_nf')
+    match_template(NF, strip_doc(fn.body), 'edfa_nf')
+    out.append('(* edfa_nf: template-matched whole (a fresh Edfa of the entry at the required gain, its _calc_nf); network.py '
+               'keeps no state between calls (check_stateless) *)')
+    out.append('Definition g_nf_of_entry_at_hand : bool := true.\n')
     # ---- filter_edfa_list_based_on_targets
     fn = find(tree, 'filter_edfa_list_based_on_targets')
     pos = [a.arg for a in fn.args.args]
